@@ -1283,6 +1283,19 @@ func registerMisc(in *Interp) {
 	tm("UnixMicro", func(th *Thread, t time.Time, a []Value) Value { return t.UnixMicro() })
 	tm("Nanosecond", func(th *Thread, t time.Time, a []Value) Value { return int64(t.Nanosecond()) })
 	tm("String", func(th *Thread, t time.Time, a []Value) Value { return t.String() })
+	tm("Year", func(th *Thread, t time.Time, a []Value) Value { return int64(t.Year()) })
+	tm("Month", func(th *Thread, t time.Time, a []Value) Value { return int64(t.Month()) })
+	tm("Day", func(th *Thread, t time.Time, a []Value) Value { return int64(t.Day()) })
+	tm("Hour", func(th *Thread, t time.Time, a []Value) Value { return int64(t.Hour()) })
+	tm("Minute", func(th *Thread, t time.Time, a []Value) Value { return int64(t.Minute()) })
+	tm("Second", func(th *Thread, t time.Time, a []Value) Value { return int64(t.Second()) })
+	tm("YearDay", func(th *Thread, t time.Time, a []Value) Value { return int64(t.YearDay()) })
+	tm("Weekday", func(th *Thread, t time.Time, a []Value) Value { return int64(t.Weekday()) })
+	tm("UnixMilli", func(th *Thread, t time.Time, a []Value) Value { return t.UnixMilli() })
+	tm("AddDate", func(th *Thread, t time.Time, a []Value) Value {
+		return t.AddDate(int(th.concInt(a[0], "y")), int(th.concInt(a[1], "m")), int(th.concInt(a[2], "d")))
+	})
+	tm("In", func(th *Thread, t time.Time, a []Value) Value { return t.UTC() })
 	tm("Format", func(th *Thread, t time.Time, a []Value) Value { return t.Format(th.str(a[0], "layout")) })
 	tm("Round", func(th *Thread, t time.Time, a []Value) Value { return t.Round(time.Duration(th.concInt(a[0], "d"))) })
 	tm("Truncate", func(th *Thread, t time.Time, a []Value) Value { return t.Truncate(time.Duration(th.concInt(a[0], "d"))) })
